@@ -1,32 +1,12 @@
 import MqttVerif.Model.Step
 import MqttVerif.Spec.Wire
+import MqttVerif.Driver.Codec
 /-
   Line-protocol driver of the executable model (see harness/realworld.py for the same protocol
   spoken by the real code). One operation per input line; the observation lines of that step,
   then a line holding a single dot.
 -/
-open Mqtt
-
-def hexDigit (c : Char) : Option Nat :=
-  if '0' ≤ c ∧ c ≤ '9' then some (c.toNat - '0'.toNat)
-  else if 'a' ≤ c ∧ c ≤ 'f' then some (c.toNat - 'a'.toNat + 10)
-  else if 'A' ≤ c ∧ c ≤ 'F' then some (c.toNat - 'A'.toNat + 10)
-  else none
-
-partial def unhexAux : List Char → List Nat → Option (List Nat)
-  | [], acc => some acc.reverse
-  | a :: b :: r, acc => do
-    let x ← hexDigit a
-    let y ← hexDigit b
-    unhexAux r ((x * 16 + y) :: acc)
-  | _, _ => none
-
-def unhex (s : String) : Option Bytes := if s == "-" then some [] else unhexAux s.toList []
-
-def hexNib (n : Nat) : Char := "0123456789abcdef".toList.getD n '?'
-
-def hex (bs : Bytes) : String :=
-  if bs.isEmpty then "-" else String.ofList (bs.flatMap fun b => [hexNib ((b / 16) % 16), hexNib (b % 16)])
+open Mqtt Mqtt.Driver
 
 def parseInt (s : String) : Option Int := s.toInt?
 
@@ -38,35 +18,6 @@ def parseRat (s : String) : Option Rat :=
     let d ← d.toNat?
     if d = 0 then none else some ((n : Rat) / (d : Rat))
   | _ => none
-
-def parseStrHex (s : String) : Option String := do
-  let bs ← unhex s
-  fromUtf8? bs
-
-/-- S ::= n | s:<hex> | anything else (i:.., y:.., b:.., f:.., l:, o:, u:..) is "other type" -/
-def parsePyStr (tok : String) : PyStr :=
-  if tok == "n" then .none
-  else if tok.startsWith "s:" then
-    match parseStrHex (tok.drop 2).toString with
-    | some s => .str s
-    | none => .other
-  else .other
-
-def parseOptStr (tok : String) : Option String :=
-  match parsePyStr tok with
-  | .str s => some s
-  | _ => none
-
-def parsePayload (tok : String) : Payload :=
-  if tok.startsWith "s:" then
-    match parseStrHex (tok.drop 2).toString with
-    | some s => .str s
-    | none => .other
-  else if tok.startsWith "b:" then
-    match unhex (tok.drop 2).toString with
-    | some b => .bytearray b
-    | none => .other
-  else .other
 
 def parsePyNum (tok : String) : PyNum :=
   match tok.toInt? with
@@ -201,6 +152,10 @@ partial def loop (h : IO.FS.Stream) (out : IO.FS.Stream) (w : World) : IO Unit :
   | ["factory", p] =>
     out.putStrLn "."
     loop h out (World.init (p.toNat?.getD 3))
+  | "codec" :: rest =>
+    out.putStrLn (codec rest)
+    out.putStrLn "."
+    loop h out w
   | _ =>
     match parseOp toks with
     | none =>
